@@ -30,9 +30,11 @@ def frameTok : RFrame → String
 
 def parseStream (t : String) : List (SAns RFrame) :=
   if t = "_" || t = "" then [] else
-  (t.splitOn ",").map fun a =>
-    if a.startsWith "i:" then .item (parseFrame (a.drop 2).toString)
-    else if a = "x" then .err else .pending
+  (t.splitOn ",").flatMap fun a =>
+    -- `i:<frame>*`: a standing backlog (3000 times the frame)
+    if a.startsWith "i:" && a.endsWith "*" then List.replicate 3000 (.item (parseFrame ((a.drop 2).toString.dropEnd 1).toString))
+    else if a.startsWith "i:" then [.item (parseFrame (a.drop 2).toString)]
+    else if a = "x" then [.err] else [.pending]
 
 def parseSink (t : String) : Child RFrame :=
   let c := parseScript 0 t
